@@ -137,7 +137,7 @@ def rule_pr(ctx):
         ok = False
         for s in stores:
             if isinstance(s, ast.Assign) and isinstance(s.targets[0], ast.Attribute) and s.targets[0].attr == attr:
-                v = s.value
+                v = flow.expand(s.value, fn)
                 calls = [x for x in ast.walk(v) if isinstance(x, ast.Call) and A.dotted(x.func) in (
                     'self.__class__', 'ProfilingDataset', 'type(self)')]
                 guard = any(isinstance(t, ast.Call) and A.dotted(t.func) == 'hasattr' and len(t.args) == 2
